@@ -200,8 +200,10 @@ func SelectAddrFromSubnet(seed []byte, net1 *net.IPNet) (net.IP, error) {
 	bits, addrLen := net1.Mask.Size()
 
 	ipBigInt := &big.Int{}
+	ipLen := net.IPv6len
 	if v4net := net1.IP.To4(); v4net != nil {
 		ipBigInt.SetBytes(net1.IP.To4())
+		ipLen = net.IPv4len
 	} else if v6net := net1.IP.To16(); v6net != nil {
 		ipBigInt.SetBytes(net1.IP.To16())
 	}
@@ -234,7 +236,7 @@ func SelectAddrFromSubnet(seed []byte, net1 *net.IPNet) (net.IP, error) {
 	randBigInt.And(randBigInt, maskBigInt)
 	ipBigInt.Add(ipBigInt, randBigInt)
 
-	return net.IP(ipBigInt.Bytes()), nil
+	return bigIntToIP(ipBigInt, ipLen)
 }
 
 func init() {
